@@ -111,6 +111,8 @@ def no_panic_oracle(case, trace):
             yield "taking every second item with Iterator::nth(1) does not give items 1, 3, 5, ... of the plain run with the same driver calls: %s" % r[:300]
         if t == "ADAPT" and not r.startswith("same"):
             yield "the run through Iterator's provided methods (by_ref().take(k) + size_hint, or fold) differs from the plain run with the same driver: %s" % r[:300]
+        if t == "SADAPT" and not r.startswith("same"):
+            yield "the static run through Iterator::nth / skip / step_by differs from the plain static run (items visited, or the draws of the whole run): %s" % r[:300]
         if t == "REUSE" and not r.startswith("same"):
             yield "a TestCase that has been iterated before does not behave like a freshly bound one (same script / driver of another layout / after an edit of the public signals): %s" % r[:300]
         if t == "FREERUN" and not r.startswith("same"):
@@ -3530,3 +3532,181 @@ PROPS["C20"]["rule"] += "; plus .dig documents (sources indented, with blank lin
 _c20_base4 = PROPS["C20"]["cases"]
 PROPS["C20"]["cases"] = lambda seed, tier: _c20_base4(seed, tier) + long_text_cases("c20", seed, tier)
 PROPS["C20"]["rule"] += "; plus the long texts of C19 (65 536+ lines)"
+
+
+# ------------------------------------------------------------------ round 12
+def c16_many_pins_cases(seed, tier):
+    """circuits with 33-90 labelled pins whose In / Clock / Out elements are interleaved in the document (outputs first,
+    alternating, inputs last): the signal list is inputs in document order, then outputs in document order, however many"""
+    import gen_dig
+    rng = random.Random(seed ^ 0x16AA)
+    out = []
+    n = 6 if tier == "quick" else 120
+    tries = 0
+    while len(out) < n and tries < 20 * n:
+        tries += 1
+        r2 = random.Random(rng.randrange(1 << 30))
+        npins = r2.choice([33, 34, 40, 48, 64, 65, 90])
+        order = r2.choice(["out-first", "alternate", "random", "in-last-one"])
+        elems = []
+        for i in range(npins):
+            if order == "out-first":
+                elems.append("Out" if i < npins // 2 else r2.choice(["In", "In", "Clock"]))
+            elif order == "alternate":
+                elems.append("Out" if i % 2 == 0 else "In")
+            elif order == "in-last-one":
+                elems.append("Out" if i < npins - 1 else "In")
+            else:
+                elems.append(r2.choice(["In", "Out", "Out", "Clock"]))
+        pins = [gen_dig.gen_pin(r2, e, "P%d" % i, 0.0) for i, e in enumerate(elems)]
+        names_i = [p["label"] for p in pins if p["elem"] != "Out"]
+        names_o = [p["label"] for p in pins if p["elem"] == "Out"]
+        cols = r2.sample(names_i, min(len(names_i), 2)) + r2.sample(names_o, min(len(names_o), 2))
+        if not cols:
+            continue
+        src = " ".join(cols) + "\n" + " ".join("1" for _ in cols) + "\n" + " ".join("0" for _ in cols) + "\n"
+        tests = [{"k": "test", "label": "many", "source": src}]
+        items = pins + tests if r2.random() < 0.5 else tests + pins
+        desc = {"items": items, "features": ["many-pins"]}
+        root = gen_dig.desc_tree(r2, desc)
+        nodes = gen_dig.top_level(r2, root, 0.0)
+        st = gen_dig.style(r2, 0.0)
+        try:
+            c = gen_dig.make_case("c16-many-%d-%d" % (seed & 0xFFFF, len(out)), r2, nodes, st, "desc", {"desc": desc, "features": ["many-pins"]})
+        except AssertionError:
+            continue
+        out.append(c)
+    return out
+
+
+_extend("C16", c16_many_pins_cases, "plus circuits with 33-90 labelled pins, outputs and inputs interleaved in the document")
+
+
+def _add_dig(prop, salt, n_quick, n_thorough, text):
+    """.dig documents for a property whose promise also holds for tests that come out of a document: the file's signal
+    list (names, directions, widths, defaults) is compared with the model's, load_test(i) with parse + bind (oracle)"""
+    pref = prop.lower()
+    _extend(prop, lambda seed, tier: [dict(c, id=pref + "d-" + c["id"]) for c in _gen_dig.cases((seed ^ salt) & 0xFFFFFF, n_quick if tier == "quick" else n_thorough, 0, 0)
+                                      if "tree" in c and not c.get("no_model")], text)
+    PROPS[prop]["dig_tags"] = tuple(t for t in ("DIG", "SIGNALS", "TEST", "MISSING") if t not in PROPS[prop]["tags"])
+    if _f16.c16_load_oracle not in PROPS[prop]["oracles"]:
+        PROPS[prop]["oracles"] = list(PROPS[prop]["oracles"]) + [_f16.c16_load_oracle]
+
+
+_add_dig("C07", 0xC07D, 40, 800, "plus .dig documents: the widths the circuit declares are the widths the loaded tests reduce to (signal list compared with the model's; load_test = parse + bind)")
+_add_dig("C11", 0xC11D, 60, 1200, "plus .dig documents: load_test accepts / refuses a test exactly as from_str + with_signals(file.signals) does, with the same error and locations")
+_add_dig("C02", 0xC02D, 40, 800, "plus .dig documents: a loaded test is bound to ALL the file's signals (load_test = parse + bind), so every input-capable pin is sent")
+
+
+def c12_row_arity_texts(seed, tier):
+    """rows with one or two entries too many / too few where the surplus (or the last) entry is of every kind (number in
+    every radix, X, Z, C in both cases, an expression, a bits field), at top level, in a loop, after repeat, in a while body
+    that never runs; and rows that have the same non-blank characters as an earlier valid row but split differently
+    (`1 0` / `10`, `1 00` / `10 0`): a row is judged by its own entries"""
+    cases = []
+    k = 0
+    kinds = ["1", "X", "Z", "C", "x", "z", "c", "(1)", "bits(1,0)", "0x1", "0b1", "01", "(A)"]
+    places = [lambda r: r + "\n", lambda r: "loop(i,2)\n" + r + "\nend loop\n", lambda r: "repeat(2) " + r + "\n", lambda r: "while(0)\n" + r + "\nend while\n",
+              lambda r: "loop(i,0)\nloop(j,1)\n" + r + "\nend loop\nend loop\n"]
+    for n in (1, 2, 3):
+        hdr = " ".join(["A", "B", "Q"][:n]) + "\n"
+        good = " ".join(["1"] * n)
+        for kd in kinds:
+            for pi, place in enumerate(places):
+                for extra in (1, 2):
+                    row = " ".join(["1"] * n + [kd] * extra)
+                    cases.append({"id": "c12-arity-%d" % k, "kind": "parse", "src": hdr + good + "\n" + place(row)})
+                    k += 1
+                if n >= 2:
+                    row = " ".join(["1"] * (n - 2) + [kd])
+                    cases.append({"id": "c12-arity-%d" % k, "kind": "parse", "src": hdr + place(row) + good + "\n"})
+                    k += 1
+                if pi == 0 and kd.startswith("bits"):
+                    cases.append({"id": "c12-arity-%d" % k, "kind": "parse", "src": hdr + " ".join(["bits(%d,1)" % n, "C"]) + "\n"})
+                    k += 1
+    for (hdr, a, b) in [("A B", "1 0", "10"), ("A B", "1 0", "1 0 "), ("A B", "1 0", " 1  0"), ("A B", "1 00", "10 0"), ("A B", "10 0", "1 00"), ("A B Q", "1 0 1", "10 1"), ("A B Q", "1 0 1", "1 01"),
+                        ("A B Q", "1 0 1", "101"), ("A B", "1 X", "1X"), ("A B", "X X", "XX"), ("A B", "1 Z", "1Z"), ("A B", "0 C", "0C"), ("A B", "1 1", "1 1 # 1"), ("A B", "1 1", "1 # 1"),
+                        ("A B", "0x1 0", "0x10"), ("A B", "0 x", "0x"), ("A B", "0 b1", "0b1"), ("A", "10", "1 0"), ("A", "1", "1 "), ("A B Q", "1 1 1", "11 1"), ("A B Q", "11 1 1", "1 11 1"), ("A B Q", "1 1 1", "1 1 1 1")]:
+        for place in places[:3]:
+            cases.append({"id": "c12-arity-%d" % k, "kind": "parse", "src": hdr + "\n" + a + "\n" + place(b)})
+            k += 1
+            cases.append({"id": "c12-arity-%d" % k, "kind": "parse", "src": hdr + "\n" + place(a) + b + "\n" + a + "\n"})
+            k += 1
+    return cases
+
+
+for _p in ("C12", "C10", "C09"):
+    _extend(_p, c12_row_arity_texts, "plus rows with surplus / missing entries of every kind in every place, and rows with the non-blank characters of an earlier valid row split differently")
+
+
+def round12_shapes(prefix):
+    """fixed shapes of round 12: shift counts of 64 and more in a loop bound / while condition / repeat count; let, loop and
+    repeat variables named like an output the driver answers for; a signal list without any input; a declared signal that
+    draws, static as well (the static run is also taken through nth / skip / step_by); narrow outputs next to 64-bit input
+    columns only (or no input column at all); a Z default left out of the header next to driven inputs; rows with Z after a
+    driven input; a computation-only while; a loop body that moves its own counter past the bound"""
+    cases = []
+    k = 0
+    def add(src, sigs, layout, table, kinds=("run",), **kw):
+        nonlocal k
+        for kind in kinds:
+            c = {"id": "%s-r12-%d-%s" % (prefix, k, kind), "kind": kind, "src": src, "sigs": [dict(s_) for s_ in sigs], "layout": layout if kind == "run" else [], "table": table if kind == "run" else [],
+                 "echo": 0, "wdefault": k % 2, "faults": [], "max": 60, "seed": 4 + 6 * k, "cont": 1}
+            c.update(kw)
+            cases.append(c)
+        k += 1
+    AQ = [{"name": "A", "typ": "I", "bits": 8, "default": "0"}, {"name": "Q", "typ": "O", "bits": 8, "default": "-"}]
+    add("A Q\nlet k = 64;\nloop(i, 1 << k)\n(i) X\nend loop\nlet x = 4;\nwhile(x >> 65)\n(x) X\nlet x = x - 1;\nend while\nrepeat(1 << 65) 7 X\nloop(j, 3 << (0-63))\n(j) X\nend loop\n", AQ, [1], [["1"]])
+    add("A Q\nloop(i, 1 << 64)\n(i) X\nend loop\nloop(i, 2 >> 64)\n(i+10) X\nend loop\nloop(i, 8 >> 66)\n(i+20) X\nend loop\nlet w = 1 << 127;\nwhile(w)\n(30) X\nlet w = 0;\nend while\n", AQ, [1], [["1"]])
+    AQN = [{"name": "A", "typ": "I", "bits": 16, "default": "0"}, {"name": "Q", "typ": "O", "bits": 8, "default": "-"}, {"name": "n", "typ": "O", "bits": 8, "default": "-"}, {"name": "i", "typ": "O", "bits": 8, "default": "-"}]
+    add("A Q n i\nlet Q = 5;\n(Q+1) X X X\nloop(i,2)\n(i*2+1) X X X\nend loop\nrepeat(3) (n*2+1) X X X\n(n) X X X\n(i) X X X\n", AQN, [1, 2, 3], [["100", "101", "102"]])
+    add("A Q n i\n(Q) X X X\nlet Q = Q + 1;\n(Q) X X X\nloop(n,2)\nlet i = n + 50;\n(i) X X X\nend loop\n(i+n) X X X\n", AQN, [3, 1, 2], [["102", "100", "101"]])
+    OQ = [{"name": "Q", "typ": "O", "bits": 8, "default": "-"}, {"name": "R", "typ": "O", "bits": 4, "default": "-"}]
+    add("Q R\n1 2\n3 X\n", OQ, [0, 1], [["1", "2"], ["3", "4"]], kinds=("run", "static", "bind"))
+    add("Q R\n(Q) X\n(R+1) (Q)\n", OQ, [0, 1], [["1", "2"], ["3", "4"]], kinds=("run", "bind"))
+    add("Q\n1\n", OQ[:1], [0], [["1"]], kinds=("run", "static"))
+    AQV = AQ
+    add("A Q V\ndeclare V = random(1000);\n1 X X\n2 X X\nresetRandom;\n3 X X\n4 X X\n5 X X\n", AQV, [1], [["1"]], kinds=("run", "static"))
+    add("A Q V W\ndeclare V = random(1000);\ndeclare W = random(7) + V;\n1 X X X\n2 X 3 X\nresetRandom;\n3 X X X\n4 X X 2\n5 X X X\n(random(9)) X X X\n", AQV, [1], [["1"]], kinds=("run", "static"))
+    W64 = [{"name": "A", "typ": "I", "bits": 64, "default": "0"}, {"name": "B", "typ": "I", "bits": 4, "default": "9"}, {"name": "Q", "typ": "O", "bits": 8, "default": "-"}, {"name": "R", "typ": "O", "bits": 3, "default": "-"}]
+    add("A Q R\n1 300 9\n2 (0-1) (0-1)\n(0-1) 0x1FF 15\n", W64, [2, 3], [["44", "1"], ["255", "7"]], kinds=("run", "static"))
+    add("Q R\n300 9\n(0-1) 15\n", W64, [2, 3], [["44", "1"], ["255", "7"]], kinds=("run", "static"))
+    add("A Q\n(0-1) 300\nlet q = 1;\n2 (q+511)\n", W64, [2, 3], [["44", "1"], ["0", "7"]])
+    ZD = [{"name": "A", "typ": "I", "bits": 4, "default": "0"}, {"name": "T", "typ": "B", "bits": 4, "default": "Z"}, {"name": "E", "typ": "I", "bits": 1, "default": "Z"}, {"name": "B", "typ": "I", "bits": 4, "default": "3"}, {"name": "Q", "typ": "O", "bits": 4, "default": "-"}]
+    add("A Q\n1 X\n2 X\n", ZD, [4, 1], [["1", "2"], ["3", "4"]], kinds=("run", "static"))
+    add("A T B Q\n1 Z 2 X\n1 5 Z X\nZ Z 1 X\n2 Z Z X\n", ZD, [4, 1], [["1", "2"], ["3", "4"]], kinds=("run", "static"))
+    add("B Q\n1 X\nC X\n", ZD, [4], [["1"], ["3"]], kinds=("run", "static"))
+    add("A Q\nlet s = 0;\nlet i = 0;\nwhile(i < 4)\nlet s = s + i;\nlet i = i + 1;\nend while\n(s) X\nloop(j,2)\nwhile(s > 3)\nlet s = s - 3;\nend while\n(s+j) X\nend loop\n", AQ, [1], [["1"]])
+    add("A Q\nlet i = 7;\nloop(i,5)\n(i) X\nlet i = ite(i = 1, 10, i);\nend loop\n(i) X\nloop(j,3)\nlet j = j + 5;\n(j) X\nend loop\n(i) X\n", AQ, [1], [["1"]])
+    return cases
+
+
+for _p in ("C01", "C02", "C04", "C06", "C07", "C08", "C11", "C14", "C15", "C17", "C18", "C10"):
+    _extend(_p, (lambda pref: (lambda seed, tier: round12_shapes(pref)))(_p.lower()),
+            "plus fixed shapes of round 12 (shift counts of 64 and more in bounds; variables named like answered outputs; signal lists without inputs; declared draws, static too; narrow outputs beside 64-bit input columns; Z defaults outside the header; computation-only while; a body that moves its own loop counter)")
+_extend("C15", (lambda seed, tier: huge_header_cases("c15")), "plus headers of 255-300 columns and answers of 270 entries")
+
+
+def c19_multi_cases(seed, tier):
+    """several iterators over ONE test whose rows expand (X inputs, C clocks), advanced out of step: every expansion still
+    reports the line of its own source row, as in the iterator run alone"""
+    rng = random.Random(seed ^ 0x19AB)
+    sigs = [{"name": "CLK", "typ": "I", "bits": 1, "default": "0"}, {"name": "A", "typ": "I", "bits": 1, "default": "0"}, {"name": "B", "typ": "I", "bits": 2, "default": "0"},
+            {"name": "Q", "typ": "O", "bits": 4, "default": "-"}]
+    srcs = ["CLK A B Q\nC X 1 X\n\n0 X X X\n# c\nC 1 2 X\nX X 3 X\n",
+            "\n\nCLK A B Q\n0 X 0 X\nloop(i,2)\n\nC X (i) X\nend loop\nrepeat(2) C 0 X X\n0 0 0 X\n",
+            "CLK A B Q # h\r\nX X 1 X\r\n\r\nC X 2 X # c\r\n\r\n1 1 1 X\r\n",
+            "CLK A B Q\n0 0 0 X\n0 X 0 X\n0 0 0 X\nC C 0 X\n0 0 0 X\n"]
+    out = []
+    for i, src in enumerate(srcs):
+        for j in range(2 if tier == "quick" else 12):
+            run = {"id": "c19-multi-%d-%d-solo" % (i, j), "kind": "run", "src": src, "sigs": [dict(s_) for s_ in sigs], "layout": [3], "table": [["1"], ["2"]], "echo": 0, "wdefault": 0,
+                   "faults": [], "max": 80, "seed": 2 + j, "cont": 1}
+            out.append(run)
+            k = rng.randrange(2, 4)
+            out.append(dict(run, id="c19-multi-%d-%d-multi" % (i, j), kind="multi", niter=k, sched=[rng.randrange(0, k) for _ in range(rng.randrange(6, 40))], group=run["id"], no_model=True))
+    return out
+
+
+_extend("C19", c19_multi_cases, "plus 2-3 iterators over one test with expanding rows, advanced out of step (each reports the lines of the solo run)")
+PROPS["C19"]["pair_oracles"] = list(PROPS["C19"].get("pair_oracles", [])) + [c15_pair_oracle]
